@@ -28,7 +28,9 @@ type c19Val struct {
 }
 
 func c19Values(now time.Time) []c19Val {
-	dt := func(min int) primitive.DateTime { return primitive.NewDateTimeFromTime(now.Add(-time.Duration(min) * time.Minute)) }
+	dt := func(min int) primitive.DateTime {
+		return primitive.NewDateTimeFromTime(now.Add(-time.Duration(min) * time.Minute))
+	}
 	old, mid, fut := 120, 30, -120
 	return []c19Val{
 		{"date 2h ago", dt(old), []int{old}},
